@@ -54,7 +54,7 @@ THEOREMS = {
     "C12": ["clusters_cell_rows", "clusters_cell_from_scratch", "clusters_partial_hist", "clusters_query_cell",
             "tree_unobserved_arm", "tree_fit_empty_batch_arm",
             "leafFold_spec", "treeFold_get", "tree_leaf_rewards", "tree_fit_leaf", "tree_partialFit_leaf", "tree_row_arm",
-            "tree_leaf_exact"],
+            "tree_leaf_exact", "clusters_readd_counterexample"],
     "C13": ["ws_pairs_spec", "ws_target", "ws_untouched", "cold_arms_spec", "cold_not_trained", "coldToWarm_targets",
             "copyFold_get_target", "copyFold_get_other", "argminFirst_spec",
             "sortRat_sorted", "quantileLin_mono", "ws_monotone_in_quantile", "ws_raises_indep", "warmed_coldToWarm",
@@ -104,7 +104,7 @@ IMPORTS = {
     "C09": ["MabModel.Props.C09", "MabModel.Props.C09b"],
     "C10": ["MabModel.Props.C10", "MabModel.Props.C10b"],
     "C11": ["MabModel.Props.C11"],
-    "C12": ["MabModel.Props.C12", "MabModel.Props.C12b"],
+    "C12": ["MabModel.Props.C12", "MabModel.Props.C12b", "MabModel.Props.C12c"],
     "C13": ["MabModel.Props.C13", "MabModel.Props.C13b"],
     "C14": ["MabModel.Props.C14", "MabModel.Props.C14b", "MabModel.Props.FacadeLift"],
     "C15": ["MabModel.Props.C15"],
